@@ -108,6 +108,11 @@ theorem step_inv (s : State) (op : Op) (h : Inv s) : Inv (step s op) := by
   | add r => exact add_inv s r h
   | addMany rs => exact foldl_add_inv rs s h
   | removeIdx i => exact shrink_inv s _ (fun r hr => List.mem_of_mem_eraseIdx hr) h
+  | removeAt i =>
+    simp only [step]
+    cases pyIndex s.held.length i with
+    | none => exact h
+    | some k => exact shrink_inv s _ (fun r hr => List.mem_of_mem_eraseIdx hr) h
   | removeIdxs is => exact shrink_inv s _ (filterIdx_sub _ 0 s.held) h
   | removeInst k => exact shrink_inv s _ (fun r hr => (List.mem_filter.mp hr).1) h
   | removeInsts ks => exact shrink_inv s _ (fun r hr => (List.mem_filter.mp hr).1) h
@@ -185,6 +190,26 @@ theorem setAllowed_eq_construct (s : State) (l : List Nat) :
 /-! ### non-vacuity -/
 example : (run {} [.add ⟨0, [1,2], [3], 0⟩, .add ⟨1, [3], [4], 1⟩, .removeIdx 0]).reactants = [3] := by decide
 example : (run {} [.add ⟨0, [1,2], [3], 0⟩, .setAllowed [3,4], .add ⟨1, [3], [4], 1⟩]).held = [⟨1, [3], [4], 1⟩] := by decide
+
+/-- **C14 (positions counted from the end).** `remove_reaction(-1)` takes back the reaction added last: a negative position `-k`
+    (1 ≤ k ≤ n) removes exactly the reaction at position `n - k`, and a non-negative one below `n` is that position itself. -/
+theorem removeAt_neg (s : State) (k : Nat) (hk : 1 ≤ k) (hn : k ≤ s.held.length) :
+    step s (.removeAt (-(k : Int))) = step s (.removeIdx (s.held.length - k)) := by
+  have : pyIndex s.held.length (-(k : Int)) = some (s.held.length - k) := by
+    unfold pyIndex
+    have h1 : ¬ (0 ≤ -(k : Int)) := by omega
+    have h2 : (- -(k : Int)).toNat = k := by simp
+    simp only [h1, if_false, h2, hn, if_true]
+  simp only [step, this]
+
+theorem removeAt_nonneg (s : State) (k : Nat) (hk : k < s.held.length) :
+    step s (.removeAt (k : Int)) = step s (.removeIdx k) := by
+  have : pyIndex s.held.length (k : Int) = some k := by
+    unfold pyIndex
+    simp [hk]
+  simp only [step, this]
+
+example : (run {} [.add ⟨0, [1], [2], 0⟩, .add ⟨1, [2], [3], 1⟩, .removeAt (-1)]).held = [⟨0, [1], [2], 0⟩] := by decide
 
 /-! ### the `naunet extend` command -/
 
